@@ -266,7 +266,7 @@ class _Gen:
 def gen_doc(ch, max_elems=12, max_depth=3, **opts):
     g = _Gen(ch, max_elems, max_depth, opts)
     root_attrs = {}
-    dims = ch.choice([("200", "100"), ("10cm", "5cm"), ("100%", "100%"), (None, None), ("300px", "300px"), ("400", "200")])
+    dims = ch.choice([("200", "100"), ("10cm", "5cm"), ("100%", "100%"), (None, None), ("300px", "300px"), ("400", "200"), ("200", "100"), ("0", "100") if ch.coin(0.3) else ("150", "150")])
     if dims[0]:
         root_attrs["width"], root_attrs["height"] = dims
     vb = ch.choice([None, "0 0 200 100", "0 0 100 100", "-50 -50 100 100", "0 0 400 100", "0 0 300 300"])
